@@ -123,6 +123,20 @@ def wrapping(repo, res):
             else:
                 n_a += 1
                 ok &= any(not tr for _, tr in zero)
+        if n_q == 0 and n_a == 0:
+            # no constructor at all: `data * unit` hands the choice to Unit.__mul__ / __array_ufunc__, whose own
+            # selection by shape is checked above
+            rets = [x.value for x in summarise(f) if x.kind == "return" and x.value]
+            prod = []
+            for t in rets:
+                try:
+                    e = ast.parse(t, mode="eval").body
+                except SyntaxError:
+                    e = None
+                prod.append(isinstance(e, ast.BinOp) and isinstance(e.op, ast.Mult))
+            if rets and all(prod):
+                res.ok(key, r1)
+                return
         res.check(ok and n_q >= 1 and n_a >= 1, key, f.where(), f"{label}: 0-d results are quantities, others arrays", "unyt_quantity iff the result is 0-d", found[:4], rid=r1)
 
     for h in ("einsum", "take"):
